@@ -48,7 +48,7 @@ def build_cases(seed, n):
             impl = E.enc_res(out)
         except E.Unencodable:
             return
-        cases.append((model, impl))
+        cases.append(f"({model}, {impl})")
         descr.append((opname, args, out))
 
     # exhaustive scalar x scalar for the binary operators on the pools
@@ -115,4 +115,4 @@ if __name__ == "__main__":
     print(f"pysem: {len(cases)} cases, {len(bad)} mismatches")
     for i in bad[:25]:
         print(i, descr[i])
-        print("   model:", coqrun.eval_terms("pysem", IMPORTS, [cases[i][0]]).strip()[:300])
+        print("   pair:", coqrun.eval_terms("pysem", IMPORTS, [cases[i]]).strip()[:400])
